@@ -574,6 +574,11 @@ def run_property(mod, tier, seed, only=None):
                     violations.append((cid, name, o["idx"], rpath, o.get("replay")))
             else:
                 det = "; ".join(str(o.get("replay")) for o in group[:3])[:600]
+                try:        # keep the non-reproducing model for diagnosis (replays/ is scratch, not committed)
+                    json.dump(dict(property=prop, case=cid, params=c.params, obligation=name, idx=first["idx"], model=first.get("model"), replay=first.get("replay")),
+                              open(os.path.join(ROOT, "replays", prop, "nonrepro_" + re.sub(r"\W+", "_", cid)[:60] + ".json"), "w"), indent=1, default=str)
+                except Exception:
+                    pass
                 harness_errors.append(f"{cid}: {name}: solver model did not reproduce on the float code ({det})")
     # ---- known findings carry the specific failing inputs they were recorded with: replay those on the float code, so that
     # a listed finding is reported (and seen to persist) even when the solver search of this run did not rediscover it
